@@ -158,4 +158,12 @@ CHECKS = {
             dict(name="TestC06Merge", quick=dict(checks=80, shards=4, timeout=900), thorough=dict(checks=3000, shards=6, timeout=3400)),
             dict(name="TestC06E2E", quick=dict(checks=9, shards=10, timeout=900), thorough=dict(checks=250, shards=10, timeout=3400)),
         ]),
+    "C02": dict(
+        pkg="c02", level="exploration", bins=["dcat", "dgrep"], helpers=["vserver"],
+        technique="property-based testing (rapid): generated sessions of the real dcat/dgrep binaries (serverless and over SSH) whose output is consumed by a generated pacing reader, with hook-placed delays at the shutdown handshake and command loop; oracle = per-file projection of the output equals the selected lines, once, in order, exit 0, bounded termination",
+        level_text="Generated file sets with line counts around the internal queue capacities are read through the real client binaries while the harness consumes their stdout at a generated pace (tiny reads, small pipe, uniform slowness, stalls of up to 5.6 s placed at a fraction of the stream or just before its end); commands come as one glob, one per file or the same file twice, with limits that force queueing, and the verif hooks add delays at the shutdown handshake, between commands and around the limiter. The tagged lines delivered per file must be exactly the selected ones, once and in order, exit status 0, and the session must end by itself.",
+        level_note="Termination is a bounded-response check (60 s + twice the generated pauses; a miss is re-examined with a fast consumer before it is reported). Schedules are sampled, not enumerated. The known finding 'session-ends-before-all-commands-arrived' is suppressed only for multi-command sessions whose hook trace shows the shutdown beginning before the last command had arrived.",
+        tests=[
+            dict(name="TestC02E2E", quick=dict(checks=14, shards=12, timeout=900), thorough=dict(checks=300, shards=12, timeout=3400)),
+        ]),
 }
